@@ -183,6 +183,9 @@ def run_c16(ctx: Ctx) -> None:
                      "dispatcher": {"charging_search_type": "shortest_time_to_charge" if k % 3 else "nearest_shortest_queue"}})
     jobs.append({"id": "denver_demo", "label": "saved", "mode": "saved", "src": "shipped", "scenario": str(SCEN_DENVER / "denver_demo.yaml"),
                  "steps": ctx.pick(60, 400), "every": 10, "later": 15})
+    # a powertrain defined with no idle consumption at all (the shipped toy car): updates that change nothing about a vehicle's energy
+    jobs.append({"id": "denver_rl_toy", "label": "saved", "mode": "saved", "src": "shipped", "scenario": str(SCEN_DENVER / "denver_rl_toy.yaml"),
+                 "steps": ctx.pick(40, 200), "every": 4, "later": 8})
     groups = [("0", jobs[i::6]) for i in range(6) if jobs[i::6]]
     res = agree.run_workers(ctx, groups)
     log = ctx.work / "agree_c16.ndjson"
